@@ -271,7 +271,7 @@ def table(ctx, facts, roles, truthy, cfg):
                 if extra is not None:
                     pol = polarity(b, bi, extra[1])
                 else:
-                    pol = polarity_call(b, bi)
+                    pol = polarity_call(b, bi, r if b.key == truthy.key else None)
                 empty_when_true = kind in ("is_empty", "eq-empty", "len-Eq")
                 good = pol is not None and ((pol[True] is False and pol[False] is True) if empty_when_true else (pol[True] is True and pol[False] is False))
                 ctx.check(good, "K3.empty-polarity", key, "empty is not mapped to false / non-empty to true (test %s, outcomes %s)" % (kind, pol), where=b.where(bi), fn=b.key, nontrivial=True, sample={"kind": v, "test": kind, "outcomes": str(pol)})
@@ -292,15 +292,18 @@ def polarity(b, bi, stmt):
     return None
 
 
-def polarity_call(b, bi):
+def polarity_call(b, bi, r=None):
+    """`r`: the function's result restricted to the kind under examination (the unrestricted result is a join over all kinds)."""
     t = b.blocks[bi]["term"]
     nxt = t["target"]
     tt = b.blocks[nxt]["term"] if nxt is not None else None
     if tt and tt["k"] == "SwitchInt" and mentions_local(tt["discr"], t["dest"]["local"]):
         return {True: const_under_edge(b, nxt, True), False: const_under_edge(b, nxt, False)}
-    r = strip_refs(b.trace(0))
+    r = strip_refs(b.trace(0)) if r is None else strip_refs(r)
     if r[0] == "call" and r[3] == bi:
         return {True: True, False: False}
     if r[0] == "unop" and r[1] == "Not":
-        return {True: False, False: True}
+        inner = strip_refs(r[2])
+        if inner[0] == "call" and inner[3] == bi:
+            return {True: False, False: True}
     return None
